@@ -209,6 +209,9 @@ func (x *Exec) chanRecv(st *State, fr *Frame, ch Term, n ast.Node, k func(*State
 	s2.assume(tImp(tAnd(x.chFlag(st, "own", ch), tNot(x.chFlag(st, "closed", ch))), okT))
 	x.chSetFlag(s2, "drained", ch, tOr(x.chFlag(st, "drained", ch), tNot(okT)))
 	s2.assume(tImp(tNot(okT), tEq(v, x.zeroOfSort(es, nil))))
+	// a blocking receive is released by the environment (the sender closes the input): for
+	// the progress condition it counts like a select with a cancel arm
+	s2.ghosts["obsCancel"] = tTrue
 	k(s2, v, okT)
 }
 
